@@ -6,6 +6,9 @@ ALL = ["C%02d" % i for i in range(1, 21)]
 
 # id -> (category, technique, text, note, design_ref)
 CHECKS = {
+ "C08": ("model_checking", "exhaustive enumeration of metadata-response histories on the real KafkaClient plus deviation-bounded DFS of producer and consumer under cluster events",
+         "Every sequence of <=3 (quick, thinned) / <=4 (thorough) steps, each a cluster change from a 12-element family followed by a partial or full metadata load, on a warmed-up 3-broker client: after every answer the public view of covered topics must equal the response, other topics unchanged, vanished partitions not alive, connections to brokers missing from a full refresh closed, new connections at the latest address. Self-healing: real Producer and Consumer explored under every sequence of <=2/<=3 leader moves, broker restarts and address changes injected at every point, with the C01/C02 monitors as the end-to-end oracle and a monitor that a request to an invalidated partition is preceded by a metadata request.",
+         "SimCluster's Metadata v0 answers define 'what the response said'; small scope", "5/C08"),
  "C07": ("model_checking", "deviation-bounded stateless depth-first exploration of the real KafkaClient's public API over every small cluster layout, payload order, failing-broker subset and reply order",
          "All 14 maps of 4 partitions onto <=3 brokers (plus leaderless variants), every ordering of every payload subset (size 1-3) for produce/fetch and size 2 for list-offsets/offset-fetch/offset-commit, broker-agnostic metadata calls cold, warmed-up and partially connected with every shuffle rotation; deviations: per-broker refuse/drop/silent/error, cross-broker reply order, timers overtaking I/O. The oracle reads the wire and the call result: leader/coordinator routing against the latest metadata delivered, one request per broker per call, responses in payload order, exact partition of the input on partial failure, connected-first and try-everyone before KafkaUnavailableError.",
          "SimCluster is Kafka; <=3 brokers, 4 partitions", "5/C07"),
@@ -49,7 +52,7 @@ CHECKS = {
          "Every response layout afkak decodes (14 layouts + 2 embedded blobs) is generated by refkafka from the product of small value domains (all error codes, boundary ints, null/empty strings, 0..2 topics/partitions/members) and every message-set shape (both magics, gzip/snappy wrappers with relative and absolute inner offsets, gaps, nesting depth 2) and decoded by the real decoders; equality of all fields, offsets and timestamps is required, plus afkak encode->decode identity.",
          "refkafka is the independent encoder; snappy is a conformant shim", "5/C05"),
  "C04": ("exploration", "bounded-exhaustive enumeration of request shapes through afkak's encoders, strictly parsed by an independent grammar implementation",
-         "All 13 request encoders and the 2 embedded blobs are driven with the product of boundary values per field width, string/bytes classes (null, empty, non-ASCII, long), payload orders and codecs; the bytes must parse under refkafka's strict parser (whole frame consumed, CRCs, magic per version, codec attributes) to exactly the supplied values. Version negotiation is explored separately on the real client (part 'negotiation', when built).",
+         "All 13 request encoders and the 2 embedded blobs are driven with the product of boundary values per field width, string/bytes classes (null, empty, non-ASCII, long), payload orders and codecs; the bytes must parse under refkafka's strict parser (whole frame consumed, CRCs, magic per version, codec attributes) to exactly the supplied values. Version negotiation is explored on the real Producer/Consumer+KafkaClient against 12 advertised version tables and two kinds of legacy broker with requests issued before/during/after discovery (deviation-bounded DFS).",
          "refkafka's strict parser is the grammar (DESIGN.md Appendix A)", "5/C04"),
  "C12": ("fault_enumeration", "exhaustive enumeration of bit flips, bursts, truncations and hostile field overwrites on a reference-encoded corpus",
          "Every single-bit flip and every burst (all interior patterns up to 8/10 bits, three patterns up to 16/32 bits) of every message of a 20-set corpus must raise ChecksumError without yielding the altered message; every truncation point must yield exactly the complete prefix or ConsumerFetchSizeTooSmall; every decoder is fed every truncation and every 1/2/4-byte hostile overwrite of a valid response under a deterministic linear cost budget, and all short strings over a hostile alphabet.",
